@@ -11,6 +11,7 @@ import (
 	"github.com/paulsonkoly/chess-3/move"
 	"github.com/paulsonkoly/chess-3/search"
 
+	"verif/harness/conv"
 	"verif/harness/eng"
 	"verif/harness/ev"
 	"verif/harness/gen"
@@ -168,11 +169,11 @@ func (m *mon) transpositions(p ref.Pos, depth int) {
 		for _, mv := range cur.Legal() {
 			nx := cur.Make(mv)
 			nx = nx.Normalised()
-			rv := b.MakeMove(move.Move(mv))
+			rv := b.MakeMove(conv.M(mv))
 			m.path = append(m.path, mv.String())
 			rec(nx, d-1)
 			m.path = m.path[:len(m.path)-1]
-			b.UndoMove(move.Move(mv), rv)
+			b.UndoMove(conv.M(mv), rv)
 		}
 	}
 	rec(p, depth)
